@@ -29,13 +29,19 @@ def isWhitespace (c : Nat) : Bool :=
 /-- `expression.trim().is_empty()` -/
 def trimIsEmpty (e : List Nat) : Bool := e.all isWhitespace
 
-/-- the inner `loop` of the quote arm of `parse_formatted_value`: copy up to and including the next
-    `q`; `none` when the text ends first.  Returns (copied, rest, location). -/
-def skipString (q : Nat) : List Nat → Nat → Option (List Nat × List Nat × Nat)
-  | [], _ => none
-  | c :: cs, loc =>
-    if c = q then some ([c], cs, loc + csize c)
-    else match skipString q cs (loc + csize c) with
+/-- the inner `loop` of the quote arm of `parse_formatted_value`: copy up to and including the
+    closing quote — the next `q`, or for a triple-quoted string the third `q` in a row (`run`
+    counts the quote characters just seen); `none` when the text ends first.
+    Returns (copied, rest, location). -/
+def skipStr (q : Nat) (triple : Bool) : Nat → List Nat → Nat → Option (List Nat × List Nat × Nat)
+  | _, [], _ => none
+  | run, c :: cs, loc =>
+    if c = q then
+      if ¬ triple ∨ run + 1 = 3 then some ([c], cs, loc + csize c)
+      else match skipStr q triple (run + 1) cs (loc + csize c) with
+        | some (s, rest, l) => some (c :: s, rest, l)
+        | none => none
+    else match skipStr q triple 0 cs (loc + csize c) with
       | some (s, rest, l) => some (c :: s, rest, l)
       | none => none
 
@@ -95,7 +101,8 @@ def fvLoop (lookup : List Nat → Option Nat) (kind : Kind) :
       match specLoop lookup kind fuel nested [] [] cs loc with
       | .error e => .error e
       | .ok (ps, cs', loc') => fvLoop lookup kind fuel nested location { st with spec := some ps } cs' loc'
-    else if ch = 40 ∨ ch = 123 ∨ ch = 91 then
+    else if (ch = 40 ∨ ch = 123 ∨ ch = 91) ∧ ¬ st.selfDoc then
+      -- (after the self-documenting `=` only blanks, `!`, `:` or `}` may follow)
       fvLoop lookup kind fuel nested location { st with expr := st.expr ++ [ch], delims := ch :: st.delims } cs loc
     else if ch = 41 then
       match st.delims with
@@ -115,12 +122,17 @@ def fvLoop (lookup : List Nat → Option Nat) (kind : Kind) :
     else if ch = 125 then
       if trimIsEmpty st.expr then .error (ferr .emptyExpression loc)
       else .ok (fvResult st location, cs, loc)
-    else if ch = 34 ∨ ch = 39 then
-      match skipString ch cs loc with
-      | none => .error (ferr .unterminatedString (loc + utf8Len cs))
+    else if (ch = 34 ∨ ch = 39) ∧ ¬ st.selfDoc then
+      -- a triple-quoted string ends at three quote characters in a row
+      let triple := decide (cs.take 2 = [ch, ch])
+      let cs0 := if triple then cs.drop 2 else cs
+      let loc0 := if triple then loc + 2 else loc
+      let opening := if triple then [ch, ch, ch] else [ch]
+      match skipStr ch triple 0 cs0 loc0 with
+      | none => .error (ferr .unterminatedString (loc0 + utf8Len cs0))
       | some (s, cs', loc') =>
-        fvLoop lookup kind fuel nested location { st with expr := st.expr ++ ch :: s } cs' loc'
-    else if ch = 32 ∧ st.selfDoc then
+        fvLoop lookup kind fuel nested location { st with expr := st.expr ++ opening ++ s } cs' loc'
+    else if (ch = 32 ∨ ch = 9 ∨ ch = 10 ∨ ch = 11 ∨ ch = 12) ∧ st.selfDoc then
       fvLoop lookup kind fuel nested location { st with trailing := st.trailing ++ [ch] } cs loc
     else if ch = 92 then .error (ferr .unterminatedString loc)
     else if st.selfDoc then .error (ferr .unclosedLbrace loc)
@@ -142,6 +154,13 @@ def specLoop (lookup : List Nat → Option Nat) (kind : Kind) :
         | .error e => .error e
         | .ok (ps, rest, loc') => specLoop lookup kind fuel nested (flush acc piece ++ ps) [] rest loc'
       else if c = 125 then .ok (flush acc piece, cs, loc)
+      else if c = 92 ∧ ¬ kind.isRaw then
+        if cs'.head? = some 123 ∨ cs'.head? = some 125 then
+          specLoop lookup kind fuel nested acc (piece ++ [92]) cs' (loc + 1)
+        else
+          match parseEscapedChar lookup kind cs' (loc + 1) with
+          | .error e => .error e
+          | .ok (s, rest, loc') => specLoop lookup kind fuel nested acc (piece ++ s) rest loc'
       else specLoop lookup kind fuel nested acc (piece ++ [c]) cs' (loc + csize c)
 
 /-- `parse_fstring(nested)`: the nesting check, then the `while let Some(&ch) = self.peek()` loop;
@@ -217,11 +236,11 @@ def allPieces (lookup : List Nat → Option Nat) : List StrTok → Except Err (L
       | .ok qs => .ok (ps ++ qs)
 
 /-- "De-duplicate adjacent constants": `cur = none` is the empty `current` vector, `some s` a
-    non-empty one whose strings join to `s` -/
+    non-empty one whose strings join to `s`; empty constant values are not pushed -/
 def dedup : Option (List Nat) → List Piece → List Piece
   | none, [] => []
   | some s, [] => [.lit s]
-  | cur, .lit s :: ps => dedup (some ((cur.getD []) ++ s)) ps
+  | cur, .lit s :: ps => if s.isEmpty then dedup cur ps else dedup (some ((cur.getD []) ++ s)) ps
   | none, .field t o c sp :: ps => .field t o c sp :: dedup none ps
   | some s, .field t o c sp :: ps => .lit s :: .field t o c sp :: dedup none ps
 
